@@ -107,7 +107,7 @@ def restricted(nodes, imps, sub):
     return keep, {(a, b) for a, b in imps if a in below and b in below and not is_ancestor(b, a)}
 
 
-def one_tree(tspec, relative_style, acc, rnd, only_mp=None, force_excl=None):
+def one_tree(tspec, relative_style, acc, rnd, only_mp=None, force_excl=None, force_regex=None):
     from pytestarch import get_evaluable_architecture, get_evaluable_architecture_for_module_objects
 
     hint = tspec.pop("_mp_hint", None)
@@ -248,6 +248,22 @@ def one_tree(tspec, relative_style, acc, rnd, only_mp=None, force_excl=None):
             acc.evaluated()
             acc.count("directory_exclusion_scans")
             attribute_scan_findings(sx, MAPPING, c4)
+        pyfiles = sorted(f for f in tspec["files"] if f.endswith(".py") and os.path.basename(f) != "__init__.py" and os.path.dirname(f))
+        if pyfiles and dirs_nonroot and (rnd.random() < 0.3 or force_regex):
+            # hand-written regular expressions with capturing groups: each pattern is matched on its own, so a
+            # back-reference counts the groups of its own pattern (one directory and one file name go)
+            import re as _re
+
+            y = os.path.basename(rnd.choice(pyfiles))[:-3]
+            x = os.path.basename(rnd.choice(dirs_nonroot))
+            pats = force_regex or [".*/(" + _re.escape(x) + "|zz_no)$", r"(?=(.*/))\1" + _re.escape(y) + r"\.py$"]
+            c6 = dict(case, regex_excl=pats)
+            HUB.case = c6
+            get_evaluable_architecture(root, root, exclusions=(), regex_exclusions=tuple(pats))
+            sr = HUB.scan_events[-1]
+            acc.evaluated()
+            acc.count("regex_exclusion_scans_with_groups_and_backreferences")
+            attribute_scan_findings(sr, MAPPING, c6)
         acc.count("trees")
         if tspec.get("symlinks"):
             acc.count("trees_with_symlinked_package")
@@ -259,14 +275,14 @@ def replay(case, acc):
     spec = case["spec"]
     if case.get("hint"):
         spec["_mp_hint"] = case["hint"]
-    one_tree(spec, case["relative_style"], acc, random.Random(0), only_mp=case.get("mp"), force_excl=case.get("excluded_dirs"))
+    one_tree(spec, case["relative_style"], acc, random.Random(0), only_mp=case.get("mp"), force_excl=case.get("excluded_dirs"), force_regex=case.get("regex_excl"))
 
 
 def floors(acc, tier):
     why = []
     if acc.counters["scans_judged"] < 200:
         why.append(f"only {acc.counters['scans_judged']} scans judged")
-    for c, n in (("subscan_equivalences", 100), ("entry_point_equivalences", 100), ("prefix_sibling_trees", 10), ("via_prefix_statements", 10), ("include_mode_scans", 30), ("sibling_directory_exclusion_scans", 10), ("root_named_package_scans", 20), ("trees_with_symlinked_package", 10), ("symlinked_root_scans", 30)):
+    for c, n in (("subscan_equivalences", 100), ("entry_point_equivalences", 100), ("prefix_sibling_trees", 10), ("via_prefix_statements", 10), ("include_mode_scans", 30), ("sibling_directory_exclusion_scans", 10), ("root_named_package_scans", 20), ("trees_with_symlinked_package", 10), ("symlinked_root_scans", 30), ("regex_exclusion_scans_with_groups_and_backreferences", 10)):
         if acc.counters[c] < n:
             why.append(f"{c}: only {acc.counters[c]}")
     if acc.counters["scan_model_errors"]:
